@@ -46,6 +46,16 @@ class Script(System):
         if "shuffle" in self.mix:
             o["order"] = [a.id for a in env.shuffle()]
             o["order"] += ["|"] + [a.id for a in env.shuffle(tag=1)]
+        if "move" in self.mix and m.kind == "grid":
+            # pick a random neighbouring cell: the list the world hands out is shuffled in place with the model's generator
+            a = env.get_random_agent()
+            if a is not None:
+                p = a[PositionComponent]
+                cells = env.get_moore_neighbours((int(p.x), int(p.y), 0), 1, False, tuple)
+                m.random.shuffle(cells)
+                if cells:
+                    env.move_to(a, cells[0][0], cells[0][1])
+                o["moves"].append([a.id] + _pos(a))
         if "move" in self.mix and m.kind != "plain":
             for a in env.shuffle()[:2]:
                 dx, dy = m.random.randint(-2, 2), m.random.randint(-2, 2)
